@@ -183,6 +183,22 @@ pub fn run(a: &Args) {
             one(&mut o, name, bytes, &ops, opts, tbits, limit, vis0, &sched);
         }
     }
+    // budgets that admit the first frames of an animation but not a later one: the calls made after LimitsExceeded must stay panic-free
+    {
+        let mut n = 0;
+        for (name, bytes) in files.iter().filter(|(nm, b)| nm.contains("+a") && !nm.contains('~') && b.len() < 3000) {
+            if n >= (if thorough { 60 } else { 12 }) { break; }
+            n += 1;
+            for limit in [8usize, 13, 20, 23, 32, 48, 64, 100, 160] {
+                for head in [vec![Op::Frame; 5], vec![Op::FrameInfo, Op::Frame, Op::FrameInfo, Op::Frame, Op::Row, Op::Frame], vec![Op::Row; 30]] {
+                    let mut ops = head.clone();
+                    ops.extend(random_ops(&mut rng, 6));
+                    one(&mut o, name, bytes, &ops, Opts::default(), 0, Some(limit), bytes.len(), &[0]);
+                }
+            }
+        }
+        o.count("small-budget-animations");
+    }
     // exhaustive short sequences on a few small files
     let small: Vec<&(String, Vec<u8>)> = files.iter().filter(|(n, b)| b.len() < 400 && !n.starts_with("fuzz/")).take(if thorough { 12 } else { 5 }).collect();
     let len = if thorough { 5 } else { 4 };
